@@ -89,6 +89,17 @@ func condPolarity(cond ssa.Value, src srcPred, kind string, depth int) (found bo
 	if kind == "notbool" && src(cond) {
 		return true, false
 	}
+	if kind == "nilerr" {
+		// cond is "e != nil" / "e == nil" with e the error result of the source call: passing = e is nil
+		if b, ok := cond.(*ssa.BinOp); ok && (b.Op == token.NEQ || b.Op == token.EQL) {
+			for _, pair := range [][2]ssa.Value{{b.X, b.Y}, {b.Y, b.X}} {
+				if isNilConst(pair[1]) && src(pair[0]) {
+					return true, b.Op == token.EQL
+				}
+			}
+		}
+		return false, false
+	}
 	if kind == "bool" {
 		if src(cond) {
 			return true, true
